@@ -426,6 +426,26 @@ def check_flow(eng, run):
     run.floor("C03.flow functions changing the buffered level", n, 3)
 
 
+def check_iterators(eng, run):
+    """the receive iterators of the clients hand on every packet that recv_packet() returned: no exit (deadline test, raise)
+    is taken while a returned packet is still held (hold typestate of C10)"""
+    from rules import c10
+    from sa.report import RuleAlias
+    it = eng.db.module("clients._iter")
+    n = 0
+    for cname, meth, is_async in (("AsyncClientRecvIterator", "__anext__", True), ("ClientRecvIterator", "__next__", False)):
+        ci = it.classes.get(cname)
+        fn = ci.methods.get(meth) if ci else None
+        if fn is None:
+            raise AnalysisError(f"anchor vanished: {cname}.{meth}")
+        n += 1
+        if is_async:
+            c10.check_hold(eng, RuleAlias(run, "C03.cli"), fn, "C03.cli")
+        else:
+            c10.check_sync(eng, RuleAlias(run, "C03.cli"), fn)
+    run.floor("C03.cli receive iterators", n, 2)
+
+
 def check_buf(eng, run):
     """a caller-owned receive buffer registered with the event loop is withdrawn on every exit of the receive (shared with C10.lend)"""
     from rules.c10 import check_lend
@@ -438,6 +458,9 @@ def run(eng, run):
     check_clients(eng, run)
     check_flow(eng, run)
     check_buf(eng, run)
+    check_iterators(eng, run)
+    from rules import c08
+    c08.check_zero_read(eng, run, rule="C03.eof")
     from sa.analyses.arms import check_dead_arms
     check_dead_arms(eng, run, "C03.arms", ("clients.tcp", "clients.async_tcp", "lowlevel._stream", "lowlevel.api_async.transports.tls", "lowlevel.api_sync.transports"), 8)
 
